@@ -12,6 +12,11 @@ CHECKS = {
    text="TLC proves Parse(Emit(p,o)) = p, NoDrop, ZIffClosed... for every lattice path (L/Q/C/A, closed by line or curve, S/T-smooth joints, several subpaths) and all 8 option combinations; each path is built as a real Path (integer, exact tiny/huge/halves affine images, nasty doubles; also paths that come out of the parser, then mutated) and parse_path(p.d(o)) must satisfy C01's relation; the text the real d() wrote is lexed by the reference grammar and its meaning under the spec must be the original segments.",
    note="Trusted: TLC, PathSem semantics, Python repr/float round trip. Relative form on non-dyadic doubles is compared with a 1e-9 relative tolerance (rounding not modelled). Zero-length Lines and null arcs excluded as the property says.",
    ref="4 (C01), 3.3"),
+ 'C03': dict(
+   technique="TLA+ exact lattice algebra (Bezier.tla) model-checked with TLC; every (control vectors, t) case replayed through the real Line/QuadraticBezier/CubicBezier methods with exact == on the dyadic lattice",
+   text="TLC checks the polynomial identities (Horner = Bernstein = de Casteljau, end points, basis change round trip, derivative = derivative of the polynomial, reversal) on unisolvent grids (all vectors over {-3,0,1,4} for degree <= 3 x 7..13 parameter values); the same cases, paired into complex control points, go through point, points, poly, derivative(n=1..4), poly2bez, bpoints2bezier, bez2poly of the real classes: bit-for-bit equality for integer control points and t = k/8 (incl. t outside [0,1], scaled by 2^-10 and 2^20), 1e-12 relative for t = k/3 and decimal scales 1e-3/1e6.",
+   note="Trusted: TLC, the interpolation argument, and that each evaluated method is straight-line arithmetic branching only on degree/flags (checked from the AST at run time and reported in the evidence). Floating-point rounding itself is absorbed by the tolerance, not modelled.",
+   ref="4 (C03), 3.6"),
  'C05': dict(
    technique="TLA+ lattice model of T <-> (k,t) <-> arc-length fractions and of continuous subpaths (TParam) model-checked with TLC; every (lengths, joints, T) case replayed on real Paths",
    text="TLC checks RoundTripT, InOccupancy, TZeroOnlyAtStart, Monotone (walking T along the grid), RunsOK and ContIffOneRun for all paths of <= 3 (quick) / 4 (thorough) segments with lengths from a set containing 0 and 64; every case is realised as a real Path (uniform-speed Line/Quadratic/Cubic chains; mixed L/Q/C/A geometry for every joint pattern incl. the closing joint) and T2t, t2T, point, start/end, iscontinuous, isclosed, continuous_subpaths are compared with the model - exactly when all lengths are powers of two.",
